@@ -427,3 +427,118 @@ def rule_extern_filter(ctx):
     if n < 1:
         obs.append(bad('EXTERN-FILTER', 'floor', 'anchor-missing: no adaptor in the generator decides by extern_enums', '', 'checker lost its anchor'))
     return obs
+
+
+@rule('ENUM-ORDER')
+def rule_enum_order(ctx):
+    """The generated enum pairs identifiers and wire strings *by position* (`#(#constructors => #variant_str,)*`): every
+    collection interpolated there is the schema's value list in schema order — mapped, never sorted, de-duplicated,
+    reversed or passed through an ordered / hashed set, because two lists ordered by different keys zip the wrong pairs."""
+    obs = []
+    fn = ctx.fn('codegen', 'codegen::enums::generate_enum_definitions')
+    if fn is None:
+        return [bad('ENUM-ORDER', 'floor', 'anchor-missing: the enum generator was not found', '', 'checker lost its anchor')]
+    REORDER = ('sort', 'sort_unstable', 'sort_by', 'sort_by_key', 'sort_unstable_by', 'sort_unstable_by_key', 'sort_by_cached_key', 'reverse', 'rev', 'dedup', 'dedup_by', 'dedup_by_key',
+               'retain', 'swap', 'rotate_left', 'rotate_right')
+    nsrc = 0
+    hits = []
+    senv = H.sym_env(fn)
+    for f_, n in H.deep_nodes(ctx, fn, fn.body, 1):
+        if n.get('k') == 'mcall':
+            try:
+                rt = ctx.pv.eval(f_, n['recv'], H.sym_env(f_), 0)
+            except Exception:
+                continue
+            if 'StoredEnum.variants' not in TM.fields_in(rt):
+                continue
+            nsrc += 1
+            if n['method'] in REORDER:
+                hits.append((n, '`%s`' % n['method']))
+            if n['method'] in ('collect', 'from_iter', 'into_iter', 'iter', 'extend'):
+                ty = n.get('ty', '') + n['recv'].get('ty', '')
+                if any(x in ty for x in ('BTreeSet', 'HashSet', 'BTreeMap', 'HashMap', 'BinaryHeap')):
+                    hits.append((n, 'a %s' % [x for x in ('BTreeSet', 'HashSet', 'BTreeMap', 'HashMap', 'BinaryHeap') if x in ty][0]))
+        if n.get('k') == 'let' and n.get('init') is not None:
+            ty = (n.get('pat') or {}).get('ty', '')
+            if any(x in ty for x in ('BTreeSet', 'HashSet', 'BTreeMap', 'HashMap')):
+                try:
+                    it_ = ctx.pv.eval(f_, n['init'], H.sym_env(f_), 0)
+                except Exception:
+                    continue
+                if 'StoredEnum.variants' in TM.fields_in(it_):
+                    hits.append((n, 'a %s' % ty.split('<')[0].split('::')[-1]))
+    if nsrc < 2:
+        obs.append(bad('ENUM-ORDER', 'floor/uses', 'anchor-missing: expected the value list to be mapped at least twice (identifiers, strings), found %d uses' % nsrc, fn.loc, 'checker lost its anchor'))
+    if hits:
+        n, what = hits[0]
+        obs.append(bad('ENUM-ORDER', 'generate_enum_definitions/order', 'a collection derived from the enum\'s values goes through %s before it is paired by position' % what, n.get('sp', fn.loc),
+                       'identifiers and wire strings are ordered by different keys: a variant serializes as another value\'s name'))
+    elif nsrc >= 2:
+        obs.append(ok('ENUM-ORDER', 'generate_enum_definitions/order', 'every collection derived from the value list keeps schema order (%d uses, no sort / set / dedup / reverse)' % nsrc, fn.loc))
+    return obs
+
+
+@rule('QUALIFIERS-FIXED')
+def rule_qualifiers_fixed(ctx):
+    """A type's qualifier list (`[Required, List, ..]`) is written once, by the extractor that reads the type expression;
+    afterwards it is only read: nowhere in the generator is a stored `qualifiers` member edited in place (`retain`,
+    `remove`, `insert`, `push`, `pop`, `truncate`, `clear`, `dedup`, `reverse`, assignment) — the one rule that maps
+    modifiers to Option / Vec then sees exactly the declared type."""
+    obs = []
+    MUT = ('retain', 'remove', 'insert', 'push', 'pop', 'truncate', 'clear', 'dedup', 'dedup_by', 'reverse', 'drain', 'swap_remove', 'extend', 'append', 'sort', 'split_off', 'resize')
+    n = 0
+    for fn in ctx.crate('codegen').all_fns():
+        if fn.from_macro:
+            continue
+        for c in fn.walk(lambda x: x['k'] in ('mcall', 'assign')):
+            if c['k'] == 'mcall':
+                if c['method'] not in MUT:
+                    continue
+                r = _strip(c['recv'])
+            else:
+                r = _strip(c['l'])
+            if not (isinstance(r, dict) and r.get('k') == 'field' and r.get('name') == 'qualifiers'):
+                continue
+            n += 1
+            obs.append(bad('QUALIFIERS-FIXED', '%s/%s' % (short(fn.path), c.get('method', 'assign')), 'a stored qualifier list is edited in place (`%s`)' % c.get('method', '='), c.get('sp', fn.loc),
+                           'the Rust type no longer follows the declared GraphQL type (non-null dropped / list level lost at some nesting depth)'))
+    if not obs:
+        obs.append(ok('QUALIFIERS-FIXED', 'scan', 'no `qualifiers` member is edited after extraction anywhere in the generator', ''))
+    return obs
+
+
+@rule('ATTR-SCAN')
+def rule_attr_scan(ctx):
+    """The derive's attribute helpers look at *tokens*: a flag identifier is recognised by comparing `Ident` tokens, never
+    by a substring test on the printed token stream (which also contains every string literal: paths, module names)."""
+    obs = []
+    n = 0
+    for fn in ctx.crate('derive').all_fns():
+        if fn.from_macro or '::attributes::' not in norm_path(fn.path) or '::test' in norm_path(fn.path):
+            continue
+        n += 1
+        for c in fn.walk(lambda x: x['k'] == 'mcall' and x['method'] in ('contains', 'starts_with', 'ends_with', 'find', 'matches', 'split')):
+            # receiver chain: .. tokens.to_string() ..
+            cur = c['recv']
+            via = False
+            while isinstance(cur, dict) and cur.get('k') in ('mcall', 'ref', 'wrap'):
+                if cur['k'] == 'mcall':
+                    if cur['method'] == 'to_string' and 'TokenStream' in (cur['recv'].get('ty', '') + cur['recv'].get('aty', '')):
+                        via = True
+                    cur = cur['recv']
+                else:
+                    cur = cur['e']
+            if not via and isinstance(cur, dict) and cur.get('k') == 'path' and (cur.get('res') or {}).get('r') == 'local':
+                for s_ in fn.binds.get(cur['res']['hid'], []):
+                    if s_[0] == 'expr':
+                        for x in H.walk(s_[1]):
+                            if x.get('k') == 'mcall' and x['method'] == 'to_string' and 'TokenStream' in (x['recv'].get('ty', '') + x['recv'].get('aty', '')):
+                                via = True
+            if via:
+                obs.append(bad('ATTR-SCAN', '%s/%s' % (short(fn.path), c['method']), 'the attribute is searched as printed text (`tokens.to_string().%s(..)`)' % c['method'], c.get('sp', fn.loc),
+                               'a string literal that merely contains the flag\'s name (a path, a module) switches the option on'))
+    if n < 3:
+        obs.append(bad('ATTR-SCAN', 'floor', 'anchor-missing: only %d attribute helpers found' % n, '', 'checker lost its anchor'))
+    elif not obs:
+        obs.append(ok('ATTR-SCAN', 'scan', '%d attribute helpers: none tests the printed token stream for substrings' % n, ''))
+    return obs
